@@ -146,10 +146,141 @@ class InjectedAllocFailure(MemoryError):
     the request fails, the caller carries on with other requests."""
 
 
+class _NpProxy:
+    """Stands for the name `np` inside aurel.core: counts einsum calls and can
+    make the n-th one fail like a failed allocation.  Everything else is
+    numpy itself."""
+
+    def __init__(self, real):
+        self._real = real
+        self.count = 0
+        self.fail_at = None
+        self.fired = None
+
+    def einsum(self, *a, **k):
+        self.count += 1
+        if self.fail_at is not None and self.count == self.fail_at:
+            self.fail_at = None
+            self.fired = self.count
+            raise InjectedAllocFailure(
+                f'simulated allocation failure in einsum call #{self.count} '
+                f'({a[0] if a else ""})')
+        return self._real.einsum(*a, **k)
+
+    def __getattr__(self, name):
+        return getattr(self._real, name)
+
+
+class _CallFault:
+    """sys.settrace seam: the n-th call of a Python function defined inside
+    the aurel package fails at its entry (failed allocation of its frame /
+    first array).  One-shot; counting only when at is None."""
+
+    def __init__(self, at=None):
+        self.at = at
+        self.count = 0
+        self.fired = None
+
+    def __call__(self, frame, event, arg):
+        if event == 'call' and '/aurel/' in frame.f_code.co_filename:
+            self.count += 1
+            if self.at is not None and self.count == self.at:
+                self.at = None
+                self.fired = (self.count, frame.f_code.co_name)
+                raise InjectedAllocFailure(
+                    f'simulated allocation failure entering '
+                    f'{frame.f_code.co_name} (call #{self.count})')
+        return None
+
+
+def _twin(rel):
+    """A throw-away instance in the same cache state (arrays shared)."""
+    import copy
+    t = copy.copy(rel)
+    t.data = dict(rel.data)
+    t.last_accessed = dict(rel.last_accessed)
+    t.var_importance = dict(rel.var_importance)
+    t._m = {k: (type(v)() if isinstance(v, (set, list)) else
+                (0 if isinstance(v, int) else None))
+            for k, v in rel._m.items()}
+    return t
+
+
+def _count_units(rel, key, kind):
+    """How many fault points of `kind` the request has in this cache state
+    (dry run on a twin; nothing of `rel` changes)."""
+    import sys
+    t = _twin(rel)
+    npx = _MON['np']
+    if kind == 'einsum':
+        c0 = npx.count
+        try:
+            t[key]
+        except Exception:  # noqa: BLE001
+            pass
+        return npx.count - c0
+    if kind == 'call':
+        cf = _CallFault(None)
+        sys.settrace(cf)
+        try:
+            t[key]
+        except Exception:  # noqa: BLE001
+            pass
+        finally:
+            sys.settrace(None)
+        return cf.count
+    t._m['fail_at'] = 10 ** 9
+    t._m['fail_count'] = 0
+    try:
+        t[key]
+    except Exception:  # noqa: BLE001
+        pass
+    return t._m['fail_count']
+
+
+def faulty_get(rel, key, spec):
+    """rel[key] with one injected failure.  spec: {'kind': 'getitem' | 'call'
+    | 'einsum', 'at': n} or {..., 'from_end': k} (k-th last fault point of
+    the request in the present cache state).  Returns (value, info)."""
+    import sys
+    kind = spec.get('kind', 'getitem')
+    at = spec.get('at')
+    total = None
+    if at is None:
+        total = _count_units(rel, key, kind)
+        at = max(1, total - spec['from_end'] + 1)
+    m = rel._m
+    info = {'kind': kind, 'at': at, 'total': total}
+    npx = _MON['np']
+    try:
+        if kind == 'einsum':
+            npx.count = 0
+            npx.fail_at = at
+            npx.fired = None
+            return rel[key], info
+        if kind == 'call':
+            cf = _CallFault(at)
+            sys.settrace(cf)
+            try:
+                return rel[key], info
+            finally:
+                sys.settrace(None)
+        m['fail_at'] = at
+        m['fail_count'] = 0
+        m['failed_key'] = None
+        return rel[key], info
+    finally:
+        npx.fail_at = None
+        m['fail_at'] = None
+
+
 def monitored_class():
     if 'cls' in _MON:
         return _MON['cls']
     import aurel.core as core
+    import numpy as _numpy
+    _MON['np'] = _NpProxy(_numpy)
+    core.np = _MON['np']
     orig_get_size = core.get_size
 
     def counting_get_size(obj):
@@ -167,7 +298,7 @@ def monitored_class():
                        'getsize_excess': None, 'hits': 0, 'misses': 0,
                        'bookkeeping': None, 'fail_at': None,
                        'fail_count': 0, 'failed_key': None,
-                       'fail_depth': 0}
+                       'fail_depth': 0, 'fault_info': None}
             super().__init__(fd, **kw)
 
         def __getitem__(self, key):
@@ -202,6 +333,8 @@ def monitored_class():
             c0 = GETSIZE_CALLS[0]
             try:
                 super().cleanup_cache()
+            except InjectedAllocFailure:
+                raise          # the simulator's own fault, not the SUT's
             except BaseException as e:
                 m['cleanup_error'] = f'{type(e).__name__}: {e}'
                 raise
@@ -640,11 +773,20 @@ def gen_ops(rng, cfg, profile='C01', nmax=24):
             else:
                 k = g.pick(keys)
             ops.append({'op': 'GET', 'key': k})
-            if g.chance(0.06):
-                # fault: the n-th computation this request starts fails (a
-                # failed allocation); the caller carries on afterwards
-                ops[-1]['fail_at'] = g.weighted([(1, 2), (2, 3), (3, 3),
-                                                 (5, 2), (9, 1)])
+            if g.chance({'C10': 0.15}.get(profile, 0.07)):
+                # fault: one allocation inside this request fails - at the
+                # start of the n-th (nested) computation, at the n-th call of
+                # an aurel function, or in the n-th einsum; counted from the
+                # start or from the end of the request.  The caller carries
+                # on afterwards.
+                kind = g.weighted([('getitem', 3), ('call', 3),
+                                   ('einsum', 4)])
+                if g.chance(0.5):
+                    ops[-1]['fault'] = {'kind': kind, 'from_end': g.weighted(
+                        [(1, 3), (2, 3), (3, 2), (4, 1), (6, 1), (10, 1)])}
+                else:
+                    ops[-1]['fault'] = {'kind': kind, 'at': g.weighted(
+                        [(1, 2), (2, 3), (3, 3), (5, 2), (9, 1), (20, 1)])}
             requested.append(k)
             if profile == 'C02' and g.chance(0.35):
                 ops.append({'op': 'TOUCH_ALL'})
@@ -660,14 +802,10 @@ def gen_ops(rng, cfg, profile='C01', nmax=24):
 
 def perform(rel, world, op, reg=None):
     if op['op'] == 'GET':
-        if op.get('fail_at') and reg is not None:   # never in the reference
-            rel._m['fail_at'] = op['fail_at']
-            rel._m['fail_count'] = 0
-            rel._m['failed_key'] = None
-            try:
-                return rel[op['key']]
-            finally:
-                rel._m['fail_at'] = None
+        if op.get('fault') and reg is not None:   # never in the reference
+            val, info = faulty_get(rel, op['key'], op['fault'])
+            rel._m['fault_info'] = info
+            return val
         return rel[op['key']]
     if op['op'] == 'HELPER':
         args = [world.argfield(k) for k in op['args']]
@@ -705,6 +843,7 @@ class Engine:
         self.vacuous = self.inconclusive = self.skipped_phys = 0
         self.compared = 0
         self.calc_ticks = 0
+        self.ageless_ok = set()
 
     def probe(self, k, n=1):
         self.probes[k] = self.probes.get(k, 0) + n
@@ -883,11 +1022,17 @@ class Engine:
             injected = (outcome[0] == 'exc'
                         and isinstance(outcome[1], InjectedAllocFailure))
             if injected:
+                kind = (op.get('fault') or {}).get('kind', 'getitem')
                 self.fault('alloc_failure_injected')
-                if m['fail_depth'] > 0:
-                    self.fault('alloc_failure_in_nested_computation')
+                self.fault(f'alloc_failure:{kind}')
                 if cached_before != set(rel.data):
                     self.probe('partial_results_kept_after_failure')
+                # a failure between `data[key] = ...` and the age stamp (in
+                # the progress message) leaves a correct value without an
+                # age; the statement does not cover that point
+                self.ageless_ok |= set(rel.data) - set(rel.last_accessed)
+            elif op.get('fault') and outcome[0] == 'ok':
+                self.probe('fault_armed_but_request_completed')
             # ---------------- C02: mutation monitor ------------------------
             if outcome[0] == 'exc' and 'read-only' in str(outcome[1]):
                 site, line = exc_site(outcome[1])
@@ -911,14 +1056,6 @@ class Engine:
             if injected:
                 # the failed request promises nothing; what it left behind is
                 # checked by the invariants above and by every later request
-                if rel._m['failed_key'] in rel.data:
-                    self.viol.append({
-                        'prop': 'C01', 'sig': 'failed_computation_cached',
-                        'op': opi,
-                        'msg': f'op#{opi} {name}: the computation of '
-                               f'{rel._m["failed_key"]!r} failed (injected '
-                               f'allocation failure) but an entry for it is '
-                               f'cached'})
                 continue
             self._c01(op, opi, name, outcome, m, evicted)
             if outcome[0] == 'ok':
@@ -954,7 +1091,8 @@ class Engine:
         # could never be evicted): inputs that were stored directly and never
         # read are the only entries without one
         ageless = sorted(set(rel.data) - set(rel.last_accessed)
-                         - set(self.world.data) - set(frozen))
+                         - set(self.world.data) - set(frozen)
+                         - self.ageless_ok)
         if ageless:
             add('cached_entry_without_age', 'cached computed entries '
                 f'without an entry in last_accessed: {ageless[:6]}')
